@@ -1,6 +1,6 @@
 (* C03 - IDC estimands equal the true conditional interventional distribution. *)
 From Coq Require Import List Bool.
-From Y0 Require Import Base.ListSet Graph.MixedGraph Dsl.Syntax Dsl.Build Alg.Id Alg.Idc Proofs.IdcP.
+From Y0 Require Import Base.ListSet Graph.MixedGraph Graph.DSep Graph.MSep Dsl.Syntax Dsl.Build Alg.Id Alg.Idc Proofs.IdcP Proofs.IdTotalP Proofs.CondIndSemP.
 Import ListNotations.
 
 (* Soundness needs the SCM semantics, ID soundness (C01), d-separation correctness (C04) and rule 2 of the
@@ -17,5 +17,32 @@ Theorem C03_answer_has_the_form_e_over_sum_Y_e topo g X Y Z e' :
             e' = truediv e (sum_safe e (map get_base (Vs Y)) false).
 Proof. exact (idc_final_form false topo g X Y Z e'). Qed.
 
+(* 'otherwise it refuses with unidentifiable and never fails in another way': for every valid query over a well-formed
+   graph without a directed cycle, every result IDC can produce - whatever order the conditions are visited in - is an
+   estimand or the refusal. [topo] as in C02. *)
+Theorem C03_estimand_or_refusal_never_another_failure (topo : mg nat -> option (list nat)) (g : mg nat) X Y Z r :
+  (forall h, wf h -> acyclicP h -> exists o, topo h = Some o /\ is_topo h o = true) ->
+  wf g -> acyclicP g -> incl X (nodes g) -> incl Y (nodes g) -> incl Z (nodes g) -> Y <> [] ->
+  (forall v, In v X -> ~ In v Y) -> (forall v, In v X -> ~ In v Z) -> (forall v, In v Y -> ~ In v Z) ->
+  In r (idc false topo g X Y Z) -> match r with IdCrash _ => False | _ => True end.
+Proof. exact (fun Ht => idc_total topo Ht g X Y Z r). Qed.
+
+(* the rule-2 test never asks the separation routine an ill-formed question on a valid query *)
+Theorem C03_rule2_separation_test_is_defined (g : mg nat) X Y Z y z :
+  wf g -> incl X (nodes g) -> incl Y (nodes g) -> incl Z (nodes g) ->
+  (forall v, In v X -> ~ In v Y) -> (forall v, In v X -> ~ In v Z) -> (forall v, In v Y -> ~ In v Z) ->
+  In y Y -> In z Z ->
+  exists s, are_d_separated (remove_out_edges (remove_in_edges g X) [z]) y z (union X (diff Z [z])) = DOk s.
+Proof. exact (rule2_test_is_defined g X Y Z y z). Qed.
+
+(* and its verdict is true m-separation in the mutilated graph (C04): the premise of rule 2 of the do-calculus *)
+Theorem C03_rule2_verdict_is_true_separation (h : mg nat) y z C s :
+  are_d_separated h y z C = DOk s ->
+  if s then ~ m_connected h C y z else m_connected h C y z.
+Proof. exact (fun Hv => proj2 (proj1 (dsep_verdict_iff h y z C s) Hv)). Qed.
+
+Print Assumptions C03_estimand_or_refusal_never_another_failure.
+Print Assumptions C03_rule2_separation_test_is_defined.
+Print Assumptions C03_rule2_verdict_is_true_separation.
 Print Assumptions C03_every_result_is_ID_on_a_split_of_the_conditions_then_normalised.
 Print Assumptions C03_answer_has_the_form_e_over_sum_Y_e.
